@@ -13,8 +13,8 @@ EXPLANATION = ("Harness c13.prog: k operations (namespace reads that populate ca
                "instance creation, instance sets, instance-level namespace reads that create the per-instance Parameter objects) at symbolic positions of a class hierarchy (chain or diamond); after "
                "every step every class and instance is compared: inspect.getattr_static/getattr vs .param[...], "
                "`in`, iteration, values(), watch(), serialize_parameters(), repr.")
-OUTSIDE = ["dynamic (callable) values", "deleting attributes", "hierarchies other than the chain A>B>C (C redeclares x) and the "
-           "diamond A>(L,R)>J (L redeclares x)", "more than 2 added parameters"]
+OUTSIDE = ["dynamic (callable) values", "deleting attributes", "hierarchies other than the chain A>B>C (C redeclares x), the "
+           "diamond A>(L,R)>J (L redeclares x) and the deep chain A>B>C>D", "more than 2 added parameters"]
 ASSUMPTIONS = ["values are ints in Integer parameters without bounds"]
 STUBS = ["JSON text is abstract: Parameter._serializers['json'] replaced by a subclass of the real JSONSerialization whose dumps/loads are the identity (the serializer loop and per-type hooks still run)"]
 N_OPS = 8
@@ -31,6 +31,16 @@ def _mk(shape):
         class C(B):
             x = param.Integer(default=5, bounds=(-1000, 1000))
         return [A, B, C]
+    if shape == 2:      # a deep chain in which only the root declares: a set on B must reach the namespaces of C and D
+        class B(A):
+            pass
+
+        class C(B):
+            pass
+
+        class D(C):
+            pass
+        return [A, B, C, D]
 
     class L(A):
         x = param.Integer(default=5, bounds=(-1000, 1000))
@@ -192,12 +202,14 @@ def shards(tier):
     # (symv, each, k)
     plan = [(0, 0, 3), (0, 1, 3)] if tier == 'quick' else [(0, 0, 4), (0, 1, 4), (1, 0, 2)]
     for symv, each, k in plan:
-        for shape in (0, 1):
+        for shape in (0, 1, 2):
             ncls = 3 if shape == 0 else 4
             for o1 in range(N_OPS):
                 if o1 in (4, 7):
                     continue   # needs an instance first
                 for t1 in range(ncls):
+                    if shape == 2 and (o1 not in (0, 3) or t1 < 2):
+                        continue       # deep chain: programs that start by populating the namespace of / instantiating C or D
                     c = dict(shape=shape, k=k, each=each, symv=symv, watch=each, o1=o1, t1=t1)
                     for j in range(k + 1, 5):
                         c.update({'o%d' % j: 0, 't%d' % j: 0, 'v%d' % j: 0})
@@ -212,5 +224,5 @@ def bounds(tier):
     return dict(programs='k=3 opcode/target programs with constant values (comparison after every step or only at the end)'
                          if tier == 'quick' else
                          'k=4 opcode/target programs with constant values; k=2 with symbolic unbounded int values (300 s budget per shard, exhaustion not expected)',
-                hierarchies=['chain A>B>C (C redeclares x)', 'diamond A>(L,R)>J (L redeclares x)'],
+                hierarchies=['chain A>B>C (C redeclares x)', 'diamond A>(L,R)>J (L redeclares x)', 'deep chain A>B>C>D (only A declares)'],
                 opcodes=['namespace read', 'class set', 'add_parameter new', 'create instance', 'instance set', 'add_parameter overriding z', 'rejected class set', 'instance-level namespace read'])
